@@ -159,6 +159,8 @@ pub struct Msg {
     pub kind: MsgKind,
     pub held: bool,
     pub seq: u64,
+    /// for sync answers: the answering node's state vector when it encoded the answer
+    pub sv_at_encode: Option<Vec<(u64, u32)>>,
 }
 
 pub struct SyncRequest {
@@ -195,6 +197,8 @@ pub struct UidInfo {
     pub payload: Rc<Payload>,
     pub after_sv: Vec<(u64, u32)>,
     pub eid: u32,
+    /// lost in a crash before anybody else could have received it: as if it never happened
+    pub void: bool,
 }
 
 pub struct RefState {
@@ -258,6 +262,8 @@ pub struct World {
     pub cur_ops: Vec<Op>,
     pub gen_steps: u32,
     pub verbose: bool,
+    /// uids that have left their emitter (a message carrying them was delivered, or was built from a replica's state)
+    pub exposed: BitSet,
     pub cur_txn: Option<(usize, Option<String>)>,
 }
 
@@ -434,6 +440,7 @@ impl World {
             cur_ops: Vec::new(),
             gen_steps: 0,
             verbose: std::env::var("YSIM_VERBOSE").is_ok(),
+            exposed: BitSet::new(),
             cur_txn: None,
         }
     }
@@ -469,6 +476,17 @@ impl World {
                 return cur;
             }
         }
+    }
+
+    /// all updates that still exist somewhere (not lost in a crash before leaving their emitter)
+    pub fn universe(&self) -> BitSet {
+        let mut b = BitSet::new();
+        for (i, u) in self.uids.iter().enumerate() {
+            if !u.void {
+                b.insert(i);
+            }
+        }
+        b
     }
 
     pub fn exact(&self, n: usize) -> bool {
@@ -558,6 +576,7 @@ impl World {
             payload: payload.clone(),
             after_sv,
             eid: self.cur_eid,
+            void: false,
         });
         self.nodes[n].lo.insert(uid);
         self.nodes[n].hi.insert(uid);
@@ -587,6 +606,7 @@ impl World {
                     kind: MsgKind::Txn(uid),
                     held: false,
                     seq: self.msg_seq,
+                    sv_at_encode: None,
                 });
             }
         }
@@ -752,11 +772,12 @@ impl World {
         }
         self.nodes[n].lo.union_with(&msg.lo);
         self.nodes[n].hi.union_with(&msg.hi);
+        self.exposed.union_with(&msg.hi);
         let uid = self.collect_emission(n, false)?;
         crate::monitors::post_txn(
             self,
             n,
-            crate::monitors::TxnKind::Remote(msg.payload.clone(), enc),
+            crate::monitors::TxnKind::Remote(msg.clone(), enc),
             uid,
             pre,
             &[],
@@ -776,21 +797,31 @@ impl World {
         if sv_vec(&cur_sv) != sv_vec(&sv) {
             self.stats.f_stale_sv += 1;
         }
-        let (v1, v2) = {
+        let (v1, v2, sva) = {
             let txn = self.nodes[a].doc.transact();
+            let sva = sv_vec(&txn.state_vector());
             if full {
-                (txn.encode_state_as_update_v1(&sv), txn.encode_state_as_update_v2(&sv))
+                (txn.encode_state_as_update_v1(&sv), txn.encode_state_as_update_v2(&sv), sva)
             } else {
-                (txn.encode_diff_v1(&sv), txn.encode_diff_v2(&sv))
+                (txn.encode_diff_v1(&sv), txn.encode_diff_v2(&sv), sva)
             }
         };
         let payload = Rc::new(Payload { v1, v2 });
+        if self.cfg.profile == "relay" {
+            let (plo, phi) = if full {
+                (self.nodes[a].lo.clone(), self.nodes[a].hi.clone())
+            } else {
+                (self.interior(&self.nodes[a].lo), self.nodes[a].hi.clone())
+            };
+            self.mon.pool.push((payload.clone(), plo, phi));
+        }
         let (lo, hi) = if full {
             (self.nodes[a].lo.clone(), self.nodes[a].hi.clone())
         } else {
             (self.interior(&self.nodes[a].lo), self.nodes[a].hi.clone())
         };
         self.stats.syncs += 1;
+        self.exposed.union_with(&hi);
         let id = self.next_msg_id();
         self.msg_seq += 1;
         self.inflight.push(Msg {
@@ -803,6 +834,7 @@ impl World {
             kind: if full { MsgKind::Full } else { MsgKind::Diff },
             held: false,
             seq: self.msg_seq,
+            sv_at_encode: Some(sva.clone()),
         });
         if let Some(c) = misroute {
             if c < self.nodes.len() && c != a && c != b {
@@ -821,6 +853,7 @@ impl World {
                     kind: MsgKind::Diff,
                     held: false,
                     seq: self.msg_seq,
+                    sv_at_encode: None,
                 });
             }
         }
@@ -879,6 +912,7 @@ impl World {
                     kind: MsgKind::Full,
                     held: false,
                     seq: self.msg_seq,
+                    sv_at_encode: None,
                 };
                 self.deliver(&msg)?;
                 // forward whatever was emitted on the way
